@@ -552,23 +552,40 @@ func evalModItem(vc *VC, env *Env, m Clause) []modItem {
 		if id, ok := ce.Fun.(*ast.Ident); ok && id.Name == "any" && len(ce.Args) == 1 {
 			anyRef = true
 			e = ce.Args[0]
-			// any(T.f): component by type and field
+			// any(T.f) / any(pkg.T.f): component by type and field; any(T) / any(pkg.T): every field of struct type T
+			tryType := func(x ast.Expr) (ty types.Type) {
+				defer func() {
+					if r := recover(); r != nil {
+						if _, isSpec := r.(specErr); isSpec {
+							ty = nil
+							return
+						}
+						panic(r)
+					}
+				}()
+				return env.typeOfExpr(x)
+			}
+			if ty := tryType(e); ty != nil {
+				if st, ok := ty.Underlying().(*types.Struct); ok {
+					var out []modItem
+					for i := 0; i < st.NumFields(); i++ {
+						out = append(out, modItem{comp: vc.compField(ty, i), src: m.Src})
+					}
+					return out
+				}
+			}
 			if se, ok := e.(*ast.SelectorExpr); ok {
-				if tid, ok := se.X.(*ast.Ident); ok {
-					if o := env.pkg.Scope().Lookup(tid.Name); o != nil {
-						if tn, ok := o.(*types.TypeName); ok {
-							st, ok := tn.Type().Underlying().(*types.Struct)
-							if !ok {
-								fail("not a struct type")
-							}
-							for i := 0; i < st.NumFields(); i++ {
-								if st.Field(i).Name() == se.Sel.Name {
-									return []modItem{{comp: vc.compField(tn.Type(), i), src: m.Src}}
-								}
-							}
-							fail("no such field")
+				if ty := tryType(se.X); ty != nil {
+					st, ok := ty.Underlying().(*types.Struct)
+					if !ok {
+						fail("not a struct type")
+					}
+					for i := 0; i < st.NumFields(); i++ {
+						if st.Field(i).Name() == se.Sel.Name {
+							return []modItem{{comp: vc.compField(ty, i), src: m.Src}}
 						}
 					}
+					fail("no such field")
 				}
 			}
 		}
